@@ -30,6 +30,14 @@ CHECKS = {
              text='Fault enumeration: every non-derived attribute position of a fixed matrix population (all attribute kinds x required/OPTIONAL x own/complex part) and of '
                   'seeded generated populations is replaced by `$` or left empty; exit status, severity and the written value in both modes are compared with the documented matrix.',
              ref='DESIGN.md section 2 C15'),
+ 'C14': dict(tech='reference-model monitor: read + append of generated populations through the real STEPfile under ASan+UBSan; per-instance dump compared with the model shifted by one offset',
+             text='Exploration: seeded populations renumbered into id-range modes (from 1, sparse, near multiples of 1000, high) are read and appended (2-3 files); all instances must be '
+                  'present, the first file unchanged, each appended file shifted by one common offset above all earlier ids with every reference shifted alike.',
+             ref='DESIGN.md section 2 C14'),
+ 'C16': dict(tech='reference-model monitor over save/load cycles of working-session files through the real STEPfile (ASan+UBSan): per-instance dump + state letters + byte comparison of successive saves',
+             text='Exploration: seeded populations (some partially filled) x state assignments (complete/incomplete/new/deleted) are saved as working-session files, reloaded in a fresh '
+                  'session and saved again twice; population, states and byte stability are compared with the exchange-file baseline.',
+             ref='DESIGN.md section 2 C16'),
  'C01': dict(tech='reference-model monitor over recorded executions (independent Part 21 parser vs. files written by the real library) under ASan+UBSan',
              text='Exploration: seeded generated schemas x conforming populations x text variants are read and written by the real p21read/STEPfile '
                   'built with ASan+UBSan from the current tree; an independent Part 21 parser compares the written population value by value with the '
